@@ -306,6 +306,110 @@ def check_render_error(acc, label, spec):
                                   % (res.status, res.raised, path), case)
 
 
+# ---- the bundled middlewares that provide names: their names conflict like anybody else's ----------------------------
+
+BUNDLED = ['getparam', 'postdata', 'cookie', 'scriptroot']
+SHAPES = ['list', 'tuple', 'dict', 'string', 'generator', 'map', 'set', 'keys']
+CLASH = ['url', 'app_res', 'route_res', 'other-mw', 'none']
+
+
+def bundled_items():
+    out = []
+    for b in BUNDLED:
+        for shape in (SHAPES if b in ('getparam', 'postdata') else ['-']):
+            for clash in CLASH:
+                for level in ('app', 'route'):
+                    out.append(('bundled-%s-%s:%s' % (b, shape, clash), {'mw': b, 'shape': shape, 'clash': clash, 'level': level}, 'BM'))
+    return out
+
+
+def check_bundled(acc, label, spec):
+    from clastic import Application, Route, Middleware
+    from clastic.middleware.url import GetParamMiddleware, ScriptRootMiddleware
+    from clastic.middleware.form import PostDataMiddleware
+    from clastic.middleware.cookie import SignedCookieMiddleware
+    from werkzeug.wrappers import Response
+    from mc import wsgi
+    acc.evaluated += 1
+    acc.transitions += 1
+    acc.validated += 1
+    name = 'zq'
+    shape = spec['shape']
+
+    def params():
+        if shape == 'list':
+            return [name]
+        if shape == 'tuple':
+            return (name,)
+        if shape == 'dict':
+            return {name: str}
+        if shape == 'string':
+            return name
+        if shape == 'generator':
+            return (n for n in [name])
+        if shape == 'map':
+            return map(str, [name])
+        if shape == 'set':
+            return set([name])
+        return {name: 1}.keys()
+    try:
+        if spec['mw'] == 'getparam':
+            mw = GetParamMiddleware(params())
+        elif spec['mw'] == 'postdata':
+            mw = PostDataMiddleware(params())
+        elif spec['mw'] == 'cookie':
+            mw = SignedCookieMiddleware(secret_key=b'k', arg_name=name)
+        else:
+            mw = ScriptRootMiddleware(name)
+    except Exception as e:
+        acc.violation('C04:bundled-constructor:%s' % label, 'cannot construct the middleware: %r' % (e,), {'label': label, 'spec': spec, 'kind': 'BM'})
+        return
+
+    class Other(Middleware):
+        provides = (name,)
+
+        def request(self, next):
+            return next(**{name: 'other'})
+    clash = spec['clash']
+    pattern = '/r/<%s>' % name if clash == 'url' else '/r'
+    path = '/r/v' if clash == 'url' else '/r'
+
+    def ep(zq=None):
+        return Response('ok')
+    kw_app, kw_rt = {}, {}
+    if clash == 'app_res':
+        kw_app['resources'] = {name: 1}
+    if clash == 'route_res':
+        kw_rt['resources'] = {name: 1}
+    app_mws = [mw] if spec['level'] == 'app' else []
+    rt_mws = [mw] if spec['level'] == 'route' else []
+    if clash == 'other-mw':
+        rt_mws = rt_mws + [Other()]
+    try:
+        app = Application([Route(pattern, ep, middlewares=rt_mws, **kw_rt)], middlewares=app_mws, **kw_app)
+        built = None
+    except Exception as e:
+        built = e
+    got = 'accept' if built is None else 'reject:' + type(built).__name__
+    acc.outcome('bundled->%s' % got)
+    case = {'label': label, 'spec': spec, 'kind': 'BM'}
+    if clash != 'none':
+        acc.add('nontrivial')
+        if built is None:
+            acc.violation('C04:accepted:%s' % label, 'the name %r is offered by the bundled middleware and by %s, construction accepted it'
+                          % (name, clash), case)
+        elif not isinstance(built, NameError):
+            acc.violation('C04:wrong-exception:%s:%s' % (label, type(built).__name__), 'rejected with %r, expected NameError' % (built,), case)
+    else:
+        if built is not None:
+            acc.violation('C04:rejected-valid:%s:%s' % (label, type(built).__name__), 'valid configuration rejected with %r' % (built,), case)
+        else:
+            res = wsgi.call(app, path)
+            acc.transitions += 1
+            if res.raised is not None or res.code != 200:
+                acc.violation('C04:valid-config-fails:%s' % label, 'accepted configuration answered %s %r' % (res.status, res.raised), case)
+
+
 def work(tier):
     items = []
     for bi, base in enumerate(bases(tier)):
@@ -317,6 +421,7 @@ def work(tier):
             items.append((label, c, None))
             items.append((label, c, base))
     items.extend(render_error_items())
+    items.extend(bundled_items())
     return items
 
 
@@ -338,6 +443,9 @@ def shard(tier, i, n, seed):
         if base == 'RE':
             check_render_error(acc, label, cfg)
             continue
+        if base == 'BM':
+            check_bundled(acc, label, cfg)
+            continue
         for construct in (constructs or (('list', 'add', 'bind')[k % 3],)):
             check(acc, h, label, cfg, construct, base)
         if k % 997 == i:
@@ -353,7 +461,7 @@ def finish(tier, merged, results):
         if not any(k.startswith('base->accept') for k in oc):
             raise common.InternalError('vacuous: base configurations not accepted')
     mult = 3
-    nre = len(render_error_items())
+    nre = len(render_error_items()) + len(bundled_items())
     return {'space_size': (len(work(tier)) - nre) * mult + nre,
             'bounds': {'bases': len(bases(tier)), 'names': list(NAMES), 'constructions_per_item': mult},
             'distinct_nontrivial': merged['extra'].get('nontrivial', 0)}
@@ -363,7 +471,9 @@ def replay(case):
     common.setup_repo()
     acc = common.Acc()
     h = chain.Harness()
-    if case.get('kind') == 'RE':
+    if case.get('kind') == 'BM':
+        check_bundled(acc, case['label'], case['spec'])
+    elif case.get('kind') == 'RE':
         check_render_error(acc, case['label'], case['spec'])
     else:
         check(acc, h, case['label'], case['cfg'], case.get('construct', 'list'), case.get('base'))
